@@ -676,7 +676,14 @@ func runCFEpisode(r *vh.Run, ep cfEpisode) {
 		}
 	}
 	// neighbours: a fault on one call must not make another call's handler run twice, and an answer is the call's own
-	if runsWarm > 1 || runsPost > 1 {
+	// With a retry option configured a neighbour may legitimately be re-executed: the relay forwards the cut answer and then closes the
+	// client connection, and in between the client can already have put the next call on that connection (seen once, thorough tier:
+	// legacy SSE, fault after the header block of the 202, MaxRetries=2: the next call reached the server, lost its connection and was
+	// retried). The statement bounds re-execution only absent a retry option; with one the bound is MaxRetries+1 as for the victim.
+	if (runsWarm > 1 || runsPost > 1) && runsWarm <= ep.retry+1 && runsPost <= ep.retry+1 {
+		r.Count("cf_neighbour_retried_with_retry_option", 1)
+	}
+	if runsWarm > ep.retry+1 || runsPost > ep.retry+1 {
 		violated = true
 		r.Violation(sig+"|neighbour-handler-ran-again", fmt.Sprintf("%s: the call before / after the faulted one ran its handler %d / %d times", ep.kind, runsWarm, runsPost), wit)
 	}
